@@ -27,7 +27,7 @@ def run(p):
         os.makedirs(work)
         for name in ("src", "Cargo.toml", "Cargo.lock", "tests", "benches", "examples"):
             s = os.path.join(REPO, name)
-            if os.path.isdir(s): shutil.copytree(s, os.path.join(work, name))
+            if os.path.isdir(s): shutil.copytree(s, os.path.join(work, name), copy_function=shutil.copy)  # fresh mtimes: cargo must rebuild
             elif os.path.exists(s): shutil.copy(s, os.path.join(work, name))
         r = subprocess.run(["patch", "-p1", "-s", "--no-backup-if-mismatch", "-i", p], cwd=work, capture_output=True, text=True)
         if r.returncode != 0:
